@@ -145,3 +145,37 @@ def rand_env(rng: random.Random):
         env[f"v[{i}]"] = rng.choice([0.4, 0.9, 1.6, -0.8, -1.3, 2.2])
         env[f"w[{i}]"] = rng.choice([0.4, 0.9, 1.6, -0.8, -1.3, 2.2])
     return env
+
+
+def rand_linear(rng: random.Random, depth: int, names=("x", "y", "v[0]", "v[1]", "v[2]")):
+    """Random expression of the LP-recognisable class with degree <= 1 (includes the shapes the extraction arms differ on)."""
+    def const():
+        r = rng.random()
+        if r < 0.6:
+            return {"cls": "Constant", "value": rng.choice([0.0, 1.0, 2.0, -3.0, 0.5, 5.0])}
+        if r < 0.8:     # degree 0 but not a Constant node
+            return {"cls": "BinaryOp", "left": {"cls": "Constant", "value": rng.choice([2.0, -1.0])},
+                    "right": {"cls": "Constant", "value": rng.choice([3.0, 0.5])}, "op": rng.choice(["+", "*", "-"])}
+        return {"cls": "BinaryOp", "left": const(), "right": {"cls": "Constant", "value": float(rng.choice([0, 1, 2]))}, "op": "**"}
+    if depth <= 0 or rng.random() < 0.2:
+        return {"cls": "Variable", "name": rng.choice(names)} if rng.random() < 0.6 else const()
+    r = rng.random()
+    if r < 0.35:
+        return {"cls": "BinaryOp", "left": rand_linear(rng, depth - 1, names), "right": rand_linear(rng, depth - 1, names),
+                "op": rng.choice(["+", "-"])}
+    if r < 0.55:
+        a, b = const(), rand_linear(rng, depth - 1, names)
+        if rng.random() < 0.5:
+            a, b = b, a
+        return {"cls": "BinaryOp", "left": a, "right": b, "op": "*"}
+    if r < 0.65:
+        return {"cls": "BinaryOp", "left": rand_linear(rng, depth - 1, names), "right": {"cls": "Constant", "value": rng.choice([2.0, -4.0, 0.5])}, "op": "/"}
+    if r < 0.75:
+        return {"cls": "BinaryOp", "left": rand_linear(rng, depth - 1, names), "right": {"cls": "Constant", "value": rng.choice([1.0, 0.0, 1])}, "op": "**"}
+    if r < 0.82:
+        return {"cls": "UnaryOp", "operand": rand_linear(rng, depth - 1, names), "op": "neg"}
+    n = rng.randint(1, 3)
+    if r < 0.9:
+        return {"cls": "VectorSum", "vector": rand_vecvar(rng, "v", n)}
+    vec = rand_vecvar(rng, "v", n) if rng.random() < 0.5 else {"cls": "VectorExpression", "exprs": [rand_linear(rng, depth - 1, names) for _ in range(n)]}
+    return {"cls": "LinearCombination", "coefficients": [rng.choice([1.0, -2.0, 0.5, 3.0]) for _ in range(n)], "vector": vec}
